@@ -108,12 +108,10 @@ XMLByte* HexBin::decodeToXMLByte(const XMLCh*          const   hexData
     
     XMLByte temp1, temp2;
     for( int i = 0; i<decodeLength; i++ ) {
+        if (!isHex(hexData[i*2]) || !isHex(hexData[i*2+1]))
+            return 0;
         temp1 = hexNumberTable[hexData[i*2]];
-        if (temp1 == (XMLByte) -1)
-            return 0;
         temp2 = hexNumberTable[hexData[i*2+1]];
-        if (temp2 == (XMLByte) -1)
-            return 0;
         retVal[i] = ((temp1 << 4) | temp2);
     }
 
